@@ -181,10 +181,8 @@ class LowRankRootAddedDiagLinearOperator(AddedDiagLinearOperator):
             squeeze_solve = True
 
         solve = self._solve(right_tensor)
+        if left_tensor is not None:
+            solve = left_tensor @ solve
         if squeeze_solve:
             solve = solve.squeeze(-1)
-
-        if left_tensor is not None:
-            return left_tensor @ solve
-        else:
-            return solve
+        return solve
